@@ -96,6 +96,13 @@ def find_cause_pep484585_container_args_1(
     # ....................{ SATISFY ~ empty                }....................
     # If either...
     if (
+        # This pith is *NOT* a collection and thus neither sized nor safely
+        # reiterable (e.g., an iterator or generator satisfying a quasi-iterable
+        # hint like "Iterable[int]" nested in a parent hint violated elsewhere),
+        # we have *NO* recourse but to assume this pith deeply satisfies this
+        # hint. Note this test *MUST* precede the len() call below, which raises
+        # "TypeError" for unsized piths *OR*...
+        not isinstance(cause.pith, Collection) or
         # This container is empty, *ALL* items of this container (of which there
         # are none) are necessarily valid *OR*...
         #
